@@ -100,7 +100,7 @@ class An:
         if k == "V":
             body, ret = e.rsplit("=", 1)
             p = body.split(":")
-            t = ("V", int(p[1]), int(p[2]), p[3], int(p[4]), int(ret))
+            t = ("V", int(p[1]), int(p[2]), p[3], int(p[4]), p[5] if len(p) > 5 else "?", int(ret))
             self.varcbs.append((li,) + t[1:])
             return t
         if k == "N":
